@@ -357,6 +357,36 @@ class _ConstMethods(ast.NodeTransformer):
         return node
 
 
+class _SplitPairs(ast.NodeTransformer):
+    """`a, b = X, Y` with plain-name targets and pure right-hand elements (names, attribute chains, constants, displays of those)
+    that mention none of the targets -> `a = X; b = Y`: the same reads in the same order, then the same bindings."""
+    def __init__(self):
+        self.split = 0
+
+    def _block(self, body: List[ast.stmt]) -> List[ast.stmt]:
+        out: List[ast.stmt] = []
+        for st in body:
+            if isinstance(st, ast.Assign) and len(st.targets) == 1 and isinstance(st.targets[0], ast.Tuple) and isinstance(st.value, ast.Tuple) \
+                    and len(st.targets[0].elts) == len(st.value.elts) >= 2 and all(isinstance(t, ast.Name) for t in st.targets[0].elts) \
+                    and all(_pure(v) and not isinstance(v, ast.Starred) for v in st.value.elts):
+                names = {t.id for t in st.targets[0].elts}
+                if len(names) == len(st.targets[0].elts) and not any(isinstance(x, ast.Name) and x.id in names for v in st.value.elts for x in ast.walk(v)):
+                    for t, v in zip(st.targets[0].elts, st.value.elts):
+                        out.append(ast.copy_location(ast.Assign(targets=[t], value=v), st))
+                    self.split += 1
+                    continue
+            out.append(st)
+        return out
+
+    def generic_visit(self, node):
+        super().generic_visit(node)
+        for fld in ("body", "orelse", "finalbody"):
+            sub = getattr(node, fld, None)
+            if isinstance(sub, list) and sub and isinstance(sub[0], ast.stmt):
+                setattr(node, fld, self._block(sub))
+        return node
+
+
 class _StarDisplays(ast.NodeTransformer):
     """`f(x, **{"a": A, "b": B})` -> `f(x, a=A, b=B)` (keys constant identifiers, not repeated among the call's keywords) and
     `f(*[A, B])` / `f(*(A, B))` -> `f(A, B)`: same values, same evaluation order."""
@@ -1094,6 +1124,7 @@ def normalise(tree: ast.Module) -> ast.Module:
         _Fold().visit(tree)  # (`gen = self._items(...)` followed by `for x in gen:` becomes a loop over the call)
         gi.visit(tree)
     tree._tpsa_gen_inlined = gi.inlined  # type: ignore[attr-defined]
+    _SplitPairs().visit(tree)
     ls = _LoopShapes()
     ls.visit(tree)
     sk = _SinkTail()
